@@ -175,6 +175,47 @@ func phiFact(f Fact) (*ssa.Phi, func(i int) bool) {
 			return false
 		}
 	case *ssa.BinOp:
+		if c.Op == token.LSS || c.Op == token.LEQ || c.Op == token.GTR || c.Op == token.GEQ {
+			// phi < K etc. with an integer constant K: an incoming integer constant that compares
+			// the other way is ruled out
+			var phi *ssa.Phi
+			var kv int64
+			var phiLeft, ok bool
+			if p, isPhi := resolveLoad(c.X).(*ssa.Phi); isPhi {
+				if kv, ok = intConst(c.Y); ok {
+					phi, phiLeft = p, true
+				}
+			} else if p, isPhi := resolveLoad(c.Y).(*ssa.Phi); isPhi {
+				if kv, ok = intConst(c.X); ok {
+					phi, phiLeft = p, false
+				}
+			}
+			if phi == nil {
+				return nil, nil
+			}
+			return phi, func(i int) bool {
+				ev, isC := intConst(phi.Edges[i])
+				if !isC {
+					return false
+				}
+				a, b := ev, kv
+				if !phiLeft {
+					a, b = kv, ev
+				}
+				var holds bool
+				switch c.Op {
+				case token.LSS:
+					holds = a < b
+				case token.LEQ:
+					holds = a <= b
+				case token.GTR:
+					holds = a > b
+				case token.GEQ:
+					holds = a >= b
+				}
+				return holds != f.Pol
+			}
+		}
 		if c.Op != token.EQL && c.Op != token.NEQ {
 			return nil, nil
 		}
